@@ -30,7 +30,7 @@ RULE = ("cases: trees with several requirements of one job / of several jobs fin
         "at a quiescent instant, or a permutation twin; distinct = distinct case digest")
 ASSUMPTIONS = RT_ASSUMPTIONS
 
-PROFILE = S.GENERAL.but(
+PROFILE = S.GENERAL.but(p_rerun=8, 
     durations=((0, 3), (1, 6), (2, 4), (3, 2)), ks=((0, 3), (1, 2), (2, 2), (3, 2)),
     p_edge=45, p_raise=15, p_critical=15, p_forever=10, p_wild=10, p_nested=22,
     timeouts=((None, 16), (2.5, 1), (3, 1), (4.5, 1), (6, 1)),
